@@ -400,7 +400,12 @@ func outcomeOf(res *rfix.Result) string {
 			return fmt.Sprintf("scmp-%d-%d-noanswer", res.SlowKind, res.SlowCode)
 		}
 		if res.SlowKind < 0 {
-			return "alert-out"
+			// either a traceroute reply, or the slow path declined and the packet
+			// goes out again as it is (over the link it came from)
+			if m := rfix.ParseSCMP(res.Out); m.OK && m.Type == 131 {
+				return "traceroute-reply"
+			}
+			return "alert-declined-sent-back"
 		}
 		return fmt.Sprintf("scmp-%d-%d", res.SlowKind, res.SlowCode)
 	}
